@@ -71,6 +71,23 @@ def check_impl(chk, crate, im):
         chk.ob("R1", "%s::clone|%s, copies every leaf" % (ident, "derived" if im["derived"] else "hand-written"), ok,
                "" if ok else "clone result differs from the original in some field", where=body["span"][0],
                sample={"obligation": "%s::clone" % ident, "leaves": len(flat_leaves(v)), "derived": im["derived"]})
+        if "clone_from" in im["methods"]:
+            # an overridden clone_from must leave the destination identical to the source in every leaf, too
+            k2 = im["methods"]["clone_from"]
+            b2 = crate.body(k2)
+            chk.body(k2)
+            ev2 = crate.evaluator()
+            st2 = State()
+            dst = ev2.symbolic(tyid, "dst", [])
+            src = ev2.symbolic(tyid, "src", [])
+            od, os_ = st2.alloc(dst, "dst"), st2.alloc(src, "src")
+            try:
+                ev2.call_body(st2, k2, [Ref(od, (), None, True), Ref(os_, ())])
+                ok2 = same_value(st2.objs[od], src) and same_value(st2.objs[os_], src)
+                d2 = "" if ok2 else "after clone_from the destination differs from the source in some field"
+            except (Unsupported, SymbolicLoop) as e:
+                ok2, d2 = False, "not established: %s" % e
+            chk.ob("R1", "%s::clone_from|hand-written, copies every leaf" % ident, ok2, d2, where=b2["span"][0])
     elif tr == "PartialEq":
         key = im["methods"]["eq"]
         body = crate.body(key)
